@@ -68,12 +68,23 @@ func (v *Vue) evalInclude(ctx VueContext, node *html.Node, vars map[string]any, 
 		assignSeenAttrs(&onceCtx, n)
 	}
 
-	// Validate and process template tag
-	processedDom, err := v.evalTemplate(ctx, compDom, ctx.stack.EnvMap(), depth+1)
-	if err != nil {
-		return nil, fmt.Errorf("error in %s (included from %s): %w", name, ctx.FormatTemplateChain(), err)
+	childCtx := ctx.WithTemplate(name)
+
+	// A component that starts with a <template> tag: evalTemplate validates :required, sets the
+	// tag's variables and evaluates its children. Its result is evaluated output - evaluating it
+	// a second time would interpolate the substituted values as if they were template source.
+	// What follows the tag is evaluated like the rest of any template.
+	if len(compDom) > 0 && compDom[0].Type == html.ElementNode && compDom[0].Data == "template" {
+		processedDom, err := v.evalTemplate(childCtx, compDom[:1], ctx.stack.EnvMap(), depth+1)
+		if err != nil {
+			return nil, fmt.Errorf("error in %s (included from %s): %w", name, ctx.FormatTemplateChain(), err)
+		}
+		rest, err := v.evaluate(childCtx, compDom[1:], depth+1)
+		if err != nil {
+			return nil, err
+		}
+		return append(processedDom, rest...), nil
 	}
 
-	childCtx := ctx.WithTemplate(name)
-	return v.evaluate(childCtx, processedDom, depth+1)
+	return v.evaluate(childCtx, compDom, depth+1)
 }
